@@ -233,3 +233,176 @@ Proof.
       eexists. f_equal. f_equal. cbn [map rev]. rewrite <- app_assoc. reflexivity.
 Qed.
 End Statements.
+
+(* ---------- the two ways a step ends ---------- *)
+Lemma end_eof inc f tail ln ac : tail = [] ->
+  exists ln', m_statements (S f) inc (mkR (amk ([] ++ tail) ln) ac) = ROk tt (mkR (amk tail ln') ac).
+Proof. intros ->. eexists. reflexivity. Qed.
+
+Lemma end_step ts td f tail ln ac : G_tok t_step ts -> G_tok t_dot td -> nws tail ->
+  exists ln', m_statements (S f) true (mkR (amk ((ts ++ td) ++ tail) ln) ac) = ROk tt (mkR (amk tail ln') ac).
+Proof.
+  intros (w1 & Hw1 & ->) Gd Ht. rewrite <- !app_assoc. rewrite stmts_unfold by reflexivity.
+  change (hd 0 (t_step ++ w1 ++ td ++ tail)) with 35. unfold stmts_body.
+  change (35 =? 0) with false. change (35 =? 46) with false. change (35 =? 35) with true. cbv iota. unfold bind at 1.
+  assert (H : reads (m_directive true) (t_step ++ w1 ++ td) false [] nws).
+  { unfold m_directive. eapply reads_eff.
+    - eapply (reads_bind0 _ _ _ false _ _ _ _ nws); [apply (reads_tok_mism t_minimize t_step); reflexivity | cbv beta iota | intros ? _; cbv beta; rewrite <- ?app_assoc; eexists; reflexivity].
+      eapply (reads_bind0 _ _ _ false _ _ _ _ nws); [apply (reads_tok_mism t_project t_step); reflexivity | cbv beta iota | intros ? _; cbv beta; rewrite <- ?app_assoc; eexists; reflexivity].
+      eapply (reads_bind0 _ _ _ false _ _ _ _ nws); [apply (reads_tok_mism t_output t_step); reflexivity | cbv beta iota | intros ? _; cbv beta; rewrite <- ?app_assoc; eexists; reflexivity].
+      eapply (reads_bind0 _ _ _ false _ _ _ _ nws); [apply (reads_tok_mism t_external t_step); reflexivity | cbv beta iota | intros ? _; cbv beta; rewrite <- ?app_assoc; eexists; reflexivity].
+      eapply (reads_bind0 _ _ _ false _ _ _ _ nws); [apply (reads_tok_mism t_assume t_step); reflexivity | cbv beta iota | intros ? _; cbv beta; rewrite <- ?app_assoc; eexists; reflexivity].
+      eapply (reads_bind0 _ _ _ false _ _ _ _ nws); [apply (reads_tok_mism t_heuristic t_step); reflexivity | cbv beta iota | intros ? _; cbv beta; rewrite <- ?app_assoc; eexists; reflexivity].
+      eapply (reads_bind0 _ _ _ false _ _ _ _ nws); [apply (reads_tok_mism t_edge t_step); reflexivity | cbv beta iota | intros ? _; cbv beta; rewrite <- ?app_assoc; eexists; reflexivity].
+      eapply (reads_bind _ _ (t_step ++ w1) _ _ _ _ _ _ nws); [apply (reads_tok t_step w1 false Hw1) | cbv beta iota | intros tail0 _; apply (tok_nws t_dot); [exact Gd | discriminate | reflexivity]].
+      eapply (reads_bind0 _ _ _ tt _ _ _ _ nws); [apply (reads_require (fun _ => True)) | | intros; exact I].
+      eapply reads_eq; [eapply (reads_bind _ _ td [] _ _ _ _ _ nws); [apply (r_tok _ _ true Gd) | apply reads_ret | intros tail0 Ht0; rewrite app_nil_l; exact Ht0] | now rewrite app_nil_r].
+    - reflexivity. }
+  destruct (H tail ln ac Ht) as [ln1 E1]. rewrite <- !app_assoc in E1. rewrite E1. eexists. reflexivity.
+Qed.
+
+(* ---------- steps ---------- *)
+Definition step_calls (cs : list call) : list call := CBegin :: map norm_call cs ++ [CEnd].
+
+Lemma rev_step_calls cs : rev (step_calls cs) = CEnd :: rev (map norm_call cs) ++ [CBegin].
+Proof. unfold step_calls. cbn [rev]. rewrite rev_app_distr. reflexivity. Qed.
+
+Lemma steps_start steps txt : Forall (Forall stmt_ok) steps -> G_steps steps txt -> start_ok txt.
+Proof.
+  intros HP HG. destruct steps as [|cs more]; [contradiction|]. inversion HP as [|? ? Hcs Hmore]; subst. cbn [G_steps] in HG. destruct more as [|cs2 more'].
+  - pose proof (stmts_start cs txt [] Hcs HG (or_introl eq_refl)) as H. now rewrite app_nil_r in H.
+  - destruct HG as (t1 & ts & td & t2 & G1 & (w & Hw & ->) & _ & _ & _ & ->).
+    apply (stmts_start cs t1 _ Hcs G1). rewrite <- !app_assoc, (app_assoc t_step). apply start_kw. cbn. auto 10.
+Qed.
+
+Lemma start_nonzero l : start_ok l -> l <> [] -> hd 0 l <> 0.
+Proof.
+  intros [->|[H|[H|[H|[H|[H|(kw & l' & Hk & ->)]]]]]] Hne; try congruence; try (unfold is_lower in H; lia).
+  cbn in Hk. destruct Hk as [<-|[<-|[<-|[<-|[<-|[<-|[<-|[<-|[]]]]]]]]]; discriminate.
+Qed.
+
+Lemma steps_len steps txt : G_steps steps txt -> (length steps <= S (length txt))%nat.
+Proof.
+  revert txt. induction steps as [|cs more IH]; intros txt HG; [contradiction|]. cbn [G_steps] in HG. destruct more as [|cs2 more'].
+  - simpl. lia.
+  - destruct HG as (t1 & ts & td & t2 & _ & (w & _ & ->) & _ & G2 & _ & ->). specialize (IH t2 G2).
+    rewrite !app_length. change (length t_step) with 5%nat. cbn [length] in *. lia.
+Qed.
+
+Lemma r_steps inc steps : forall txt, Forall (Forall stmt_ok) steps -> G_steps steps txt -> (inc = true \/ length steps = 1%nat) ->
+  forall fuel ln ac, (length steps <= fuel)%nat ->
+  exists ln', m_steps fuel inc (mkR (amk txt ln) ac) = ROk tt (mkR (amk [] ln') (rev (flat_map step_calls steps) ++ ac)).
+Proof.
+  induction steps as [|cs more IH]; intros txt HP HG Hinc fuel ln ac Hf; [contradiction|].
+  inversion HP as [|? ? Hcs Hmore]; subst. destruct fuel as [|fu]; [simpl in Hf; lia|].
+  cbn [m_steps]. unfold bind, emit, remaining. cbn [str acc rest]. cbn [G_steps] in HG. destruct more as [|cs2 more'].
+  - pose proof (r_statements inc [] (fun tail => tail = []) (end_eof inc) (fun tail E => or_introl E) cs txt Hcs HG [] eq_refl) as Hrun.
+    rewrite !app_nil_r in Hrun. destruct (Hrun (S (length txt)) ln (CBegin :: ac) ltac:(lia)) as [ln1 E1]. rewrite E1.
+    unfold skipws, on_str. cbn [str acc]. change (a_skipws (amk [] ln1)) with (amk [] ln1).
+    unfold peek, on_str. cbn [str acc]. change (a_skipws (amk [] ln1)) with (amk [] ln1). cbn [a_peek rest].
+    change (0 =? 0) with true. cbn [orb]. unfold require.
+    eexists. unfold ret. f_equal. f_equal. cbn [flat_map]. rewrite app_nil_r, rev_step_calls. cbn [app]. rewrite <- app_assoc. reflexivity.
+  - destruct HG as (t1 & ts & td & t2 & G1 & Gs & Gd & G2 & Hne & ->).
+    assert (Hi : inc = true) by (destruct Hinc as [E|E]; [exact E | simpl in E; lia]). subst inc.
+    pose proof (steps_start _ t2 Hmore G2) as Hst.
+    assert (Hnw : nws t2) by (apply (proj1 (start_okS _ Hst))).
+    pose proof (r_statements true (ts ++ td) nws (fun f tail ln ac => end_step ts td f tail ln ac Gs Gd)) as Hrs.
+    assert (Hse : forall tail, nws tail -> start_ok ((ts ++ td) ++ tail)).
+    { intros tail _. destruct Gs as (w & _ & ->). rewrite <- !app_assoc, (app_assoc t_step). apply start_kw. cbn. auto 10. }
+    specialize (Hrs Hse cs t1 Hcs G1 t2 Hnw).
+    destruct (Hrs (S (length (t1 ++ ts ++ td ++ t2))) ln (CBegin :: ac)) as [ln1 E1]; [rewrite !app_length; lia|].
+    rewrite <- !app_assoc in E1. rewrite E1.
+    unfold skipws, on_str. cbn [str acc]. rewrite (a_skipws_nws t2 ln1 Hnw).
+    unfold peek, on_str. cbn [str acc]. rewrite (a_skipws_nws t2 ln1 Hnw).
+    assert (Hc0 : a_peek (amk t2 ln1) <> 0).
+    { pose proof (start_nonzero t2 Hst Hne) as H. destruct t2; [congruence | exact H]. }
+    destruct (Z.eqb_spec (a_peek (amk t2 ln1)) 0); [contradiction|]. cbn [orb]. unfold require.
+    destruct (IH t2 Hmore G2 (or_introl eq_refl) fu ln1 (CEnd :: rev (map norm_call cs) ++ CBegin :: ac) ltac:(simpl in Hf |- *; lia)) as [ln2 E2].
+    exists ln2. rewrite E2. f_equal. f_equal. change (flat_map step_calls (cs :: cs2 :: more')) with (step_calls cs ++ flat_map step_calls (cs2 :: more')).
+    rewrite rev_app_distr, rev_step_calls. rewrite <- !app_assoc. cbn [app]. rewrite <- app_assoc. reflexivity.
+Qed.
+
+(* ---------- leading comments and the whole program ---------- *)
+Lemma r_comments tc : G_comments tc -> forall X, nws X -> hd 0 X <> 37 -> forall fuel ln ac, (length tc < fuel)%nat ->
+  exists ln', m_skip_comments fuel (mkR (amk (tc ++ X) ln) ac) = ROk tt (mkR (amk X ln') ac).
+Proof.
+  induction 1 as [|body nl w r Hb Hnl Hw Hr IH]; intros X HX H37 fuel ln ac Hf; (destruct fuel as [|fu]; [lia|]); cbn [m_skip_comments]; unfold bind.
+  - cbn [app]. rewrite peek_true_nws by exact HX. destruct (Z.eqb_spec (hd 0 X) 37); [contradiction|]. eexists. reflexivity.
+  - rewrite <- !app_assoc. rewrite peek_true_nws by reflexivity. cbn [app hd]. change (37 =? 37) with true. cbv iota.
+    assert (Hnl' : nl = [10] \/ (nl = [13] /\ hd 0 (w ++ r ++ X) <> 10) \/ nl = [13; 10]).
+    { destruct Hnl as [E | [[E H] | E]]; auto. right. left. split; [exact E|].
+      destruct (w ++ r) as [|c q] eqn:Ewr.
+      - apply app_eq_nil in Ewr. destruct Ewr as [-> ->]. cbn [app]. unfold nws in HX. intro E10. rewrite E10 in HX. discriminate.
+      - rewrite app_assoc, Ewr. exact H. }
+    destruct (r_comment body nl (w ++ r ++ X) ln ac Hb Hnl') as [ln1 E1]. change (37 :: body ++ nl ++ w ++ r ++ X) with ([37] ++ body ++ nl ++ w ++ r ++ X). rewrite E1.
+    assert (Hlen : (length r < fu)%nat).
+    { rewrite !app_length in Hf. cbn [length] in Hf. lia. }
+    assert (Hnw : nws (r ++ X)).
+    { destruct Hr; [exact HX | reflexivity]. }
+    destruct fu as [|fu']; [lia|]. cbn [m_skip_comments]. unfold bind, peek, on_str. cbn [str acc].
+    destruct (a_skipws_ws w (r ++ X) ln1 Hw Hnw) as [ln2 E2]. rewrite E2.
+    destruct (IH X HX H37 (S fu') ln2 ac ltac:(lia)) as [ln3 E3]. cbn [m_skip_comments] in E3. unfold bind, peek, on_str in E3. cbn [str acc] in E3.
+    rewrite (a_skipws_nws (r ++ X) ln2 Hnw) in E3. rewrite E3. eexists. reflexivity.
+Qed.
+
+Lemma comments_start tc X : G_comments tc -> nws X -> nws (tc ++ X) /\ (tc <> [] -> hd 0 (tc ++ X) = 37).
+Proof. intros H HX. destruct H; [split; [exact HX | congruence] | split; [reflexivity | reflexivity]]. Qed.
+
+Lemma start_attach l : start_ok l -> ((hd 0 l =? 0) || is_lower (hd 0 l) || mem (hd 0 l) attach_chars) = true.
+Proof.
+  intros [->|[H|[H|[H|[H|[H|(kw & l' & Hk & ->)]]]]]]; try reflexivity; try (rewrite H; reflexivity).
+  - rewrite H. now rewrite orb_true_r.
+  - cbn in Hk. destruct Hk as [<-|[<-|[<-|[<-|[<-|[<-|[<-|[<-|[]]]]]]]]]; reflexivity.
+Qed.
+
+Lemma incremental_absent l ln ac : start_ok l -> hd 0 l <> 37 ->
+  mtok t_incremental false (mkR (amk l ln) ac) = ROk false (mkR (amk l ln) ac).
+Proof.
+  intros Hs H37. assert (Hd : forall c, c <> 35 -> hd 0 l = c -> mtok t_incremental false (mkR (amk l ln) ac) = ROk false (mkR (amk l ln) ac)).
+  { intros c Hc E. change t_incremental with (35 :: [105; 110; 99; 114; 101; 109; 101; 110; 116; 97; 108]). apply mtok_absent; [congruence | discriminate]. }
+  destruct Hs as [->|[H|[H|[H|[H|[H|(kw & l' & Hk & ->)]]]]]].
+  - reflexivity.
+  - apply (Hd (hd 0 l)); [unfold is_lower in H; lia | reflexivity].
+  - now apply (Hd 123).
+  - now apply (Hd 58).
+  - contradiction.
+  - now apply (Hd 46).
+  - assert (Hm : mism t_incremental kw = true) by (cbn in Hk; destruct Hk as [<-|[<-|[<-|[<-|[<-|[<-|[<-|[<-|[]]]]]]]]]; reflexivity).
+    destruct (reads_tok_mism t_incremental kw Hm (kw ++ l') ln ac (ex_intro _ l' eq_refl)) as [ln' E]. cbn [app] in E.
+    unfold mtok, bind, on_str in *. cbn [str acc] in *. unfold a_match_tok in *. cbn [rest aline] in *.
+    rewrite (list_eqb_mism t_incremental kw l' Hm). reflexivity.
+Qed.
+
+Lemma program_calls_eq inc steps : program_calls inc steps = CInit inc :: flat_map step_calls steps.
+Proof. reflexivity. Qed.
+
+Theorem roundtrip inc steps txt : Forall (Forall stmt_ok) steps -> G_program inc steps txt ->
+  observe (read_text txt) = 1 :: 0 :: enc_calls (program_calls inc steps).
+Proof.
+  intros HP (w0 & tc & ti & ts & Hw0 & Hc & Hs & -> & Hinc).
+  pose proof (steps_start steps ts HP Hs) as Hst. pose proof (start_okS _ Hst) as [Hnws _].
+  assert (Hti : nws (ti ++ ts) /\ hd 0 (ti ++ ts) <> 37 /\ ((hd 0 (ti ++ ts) =? 0) || is_lower (hd 0 (ti ++ ts)) || mem (hd 0 (ti ++ ts)) attach_chars) = true).
+  { destruct inc.
+    - destruct Hinc as (t1 & t2 & (w1 & _ & ->) & _ & ->). rewrite <- !app_assoc. repeat split; discriminate.
+    - destruct Hinc as (-> & _ & H37). cbn [app]. repeat split; [exact Hnws | exact H37 | now apply start_attach]. }
+  destruct Hti as (Tn & T37 & Tatt).
+  destruct (comments_start tc (ti ++ ts) Hc Tn) as [Cn C37].
+  assert (Hatt : ((hd 0 (tc ++ ti ++ ts) =? 0) || is_lower (hd 0 (tc ++ ti ++ ts)) || mem (hd 0 (tc ++ ti ++ ts)) attach_chars) = true).
+  { destruct tc as [|c q]; [exact Tatt|]. rewrite (C37 ltac:(discriminate)). reflexivity. }
+  unfold read_text, m_program, a_init. unfold bind at 1. unfold peek, on_str. cbn [str acc].
+  destruct (a_skipws_ws w0 (tc ++ ti ++ ts) 1 Hw0 Cn) as [ln0 E0]. rewrite E0.
+  assert (a_peek (amk (tc ++ ti ++ ts) ln0) = hd 0 (tc ++ ti ++ ts)) as -> by (destruct (tc ++ ti ++ ts); reflexivity).
+  rewrite Hatt. unfold bind, remaining. cbn [str rest].
+  destruct (r_comments tc Hc (ti ++ ts) Tn T37 (S (length (tc ++ ti ++ ts))) ln0 [] ltac:(rewrite app_length; lia)) as [ln1 E1]. rewrite E1.
+  destruct inc.
+  - destruct Hinc as (t1 & t2 & (w1 & Hw1 & ->) & (w2 & Hw2 & ->) & ->). rewrite <- !app_assoc.
+    destruct (reads_tok t_incremental w1 false Hw1 (t_dot ++ w2 ++ ts) ln1 [] ltac:(reflexivity)) as [ln2 E2]. rewrite <- !app_assoc in E2. rewrite E2.
+    change ([] ++ [] : list call) with (@nil call). destruct (reads_tok t_dot w2 true Hw2 ts ln2 [] Hnws) as [ln3 E3]. rewrite <- !app_assoc in E3. cbn [app] in E3. rewrite E3.
+    unfold ret at 1. unfold emit at 1. cbn [str acc].
+    destruct (r_steps true steps ts HP Hs (or_introl eq_refl) (S (length ts)) ln3 [CInit true] (steps_len steps ts Hs)) as [ln4 E4]. cbn [rest]. rewrite E4.
+    unfold observe. cbn [acc]. rewrite rev_app_distr, rev_involutive. reflexivity.
+  - destruct Hinc as (-> & H1 & H37). cbn [app]. rewrite (incremental_absent ts ln1 [] Hst H37).
+    unfold ret at 1. unfold emit at 1. cbn [str acc].
+    destruct (r_steps false steps ts HP Hs (or_intror H1) (S (length ts)) ln1 [CInit false] (steps_len steps ts Hs)) as [ln4 E4]. cbn [rest]. rewrite E4.
+    unfold observe. cbn [acc]. rewrite rev_app_distr, rev_involutive. reflexivity.
+Qed.
